@@ -25,6 +25,7 @@ WITNESS = [
     (r"Bitboard::(find_uci|make_uci|make_all_uci)", "board", "inkayaku_board", "c13_rejected_move.rs", "witness_find_uci|witness_make_uci"),
     (r"uci_to_pgn", "board", "inkayaku_board", "c13_rejected_move.rs", "witness_uci_to_pgn"),
     (r"search_negamax_slice|search_quiescence_slice", "engine_core", "inkayaku_engine_core", "c09_interrupted_search.rs", "witness_c09"),
+    (r"attacks::Bitboard::", "board", "inkayaku_board", "c05_check_detection.rs", "witness_c05"),
     (r"lemma_shipped_thresholds|Heuristic::evaluate", "append:engine_core/src/engine/heuristic/simple.rs", "inkayaku_engine_core", "c10_fifty_move.rs", "verif_witness_c10"),
 ]
 
